@@ -83,9 +83,13 @@ Next ==
                                 /\ Do(Op("replace_with", "", a, b, <<>>, 0, ""))
          \/ Do(Op("replace_with_none", "", a, 0, <<>>, 0, ""))
          \/ \E dm \in DupModes : Do(Op("duplicate", "", a, 0, <<>>, 0, dm))
-         \/ \E r \in TRules, at \in Atoms : /\ (r = "drop" => DropAdmissible(H(a), at))
+         \/ \E r \in TRules \ {"use"}, at \in Atoms : /\ (r = "drop" => DropAdmissible(H(a), at))
                                             /\ Do(Op("tvisit", "", a, 0, <<>>, at, r))
-         \/ \E r \in TRules \ {"boom"}, at \in Atoms : Do(Op("texec", "", a, 0, <<>>, at, r))
+         \/ \E r \in TRules \ {"boom", "use"}, at \in Atoms : Do(Op("texec", "", a, 0, <<>>, at, r))
+         \* the rule hands back an existing node (handle b) for every selected leaf; as for replace_with, no cycles
+         \/ "use" \in TRules /\ \E at \in Atoms, b \in Hs \ {a} :
+               /\ Below(H(b)) \cap (Up(H(a)) \cup Below(H(a))) = {}
+               /\ Do(Op("texec", "", a, b, <<>>, at, "use"))
 
 RECURSIVE RunFrom(_, _, _)
 RunFrom(T, n, ops) ==
